@@ -2,6 +2,7 @@
   C01 — lookups return only the latest live value for a key, never stale or phantom data.
 -/
 import MiniMoka.Lemmas.UnsyncLookup
+import MiniMoka.Lemmas.SketchLaws
 import MiniMoka.Lemmas.SyncLookup
 
 namespace MiniMoka
@@ -15,11 +16,11 @@ ones) and every history over insert, get, contains_key, iter, invalidate, invali
 invalidate_entries_if and clock advances: every key a lookup yields has a most recent insert
 that has not been invalidated (by key, by predicate or by invalidate_all) since, and a
 yielded value is exactly the value of that insert. -/
-theorem C01_unsync {P : Sketch → Prop} (L : SketchLaws P) (p : Params) (hq : NoQuirks p)
+theorem C01_unsync (p : Params) (hq : NoQuirks p)
     (hsm : SmallSketch p) (h : List Op) :
     oracleC01 .unsync (Unsync.trace p h) = true := by
   unfold oracleC01 Unsync.trace
-  refine lookupOracle_of_coupled L hq hsm _ ?_ h {} {} (init_inv L p) (init_coupled p)
+  refine lookupOracle_of_coupled sketchLaws hq hsm _ ?_ h {} {} (init_inv sketchLaws p) (init_coupled p)
   intro g kv hkv
   simp only [allChecks, Bool.and_eq_true] at hkv
   exact hkv.1.1
